@@ -1,7 +1,1466 @@
-//! C25 — not implemented yet.
+//! C25 — CLI, HTTP and FFI agree with the Rust API.
+//! Engine: frontmc. Every small world (schema + corpus of <= 3 documents + history shape over
+//! add / upsert / delete / commit / compact) is built four times: through the CLI binary (one
+//! subprocess per command), through the in-process HTTP service (raw HTTP/1.1 on a loopback
+//! port), through the C FFI, and through the library with the index options every front end
+//! uses and documents (README: BM25 k1 = 0.9, b = 0.4). Then every request of the request
+//! alphabet is sent through every front end able to express it (CLI: `--request` file /
+//! `--request-stdin` / documented flags) and compared with the library's answer.
+
+use std::collections::{BTreeMap, BTreeSet};
+use std::ffi::CString;
+use std::io::{Read, Write};
+use std::net::TcpStream;
+use std::os::raw::c_char;
+use std::path::{Path, PathBuf};
+use std::process::{Command, Stdio};
+use std::sync::atomic::{AtomicBool, AtomicU64, Ordering};
+use std::time::Duration;
+
+use parking_lot::Mutex;
+use rayon::prelude::*;
+use serde_json::{json, Map, Value};
+
+use searchlite_core::api::types::{SearchRequest, StorageType};
+use searchlite_core::api::{Index, IndexWriter};
+use vcore::ev::Reporter;
+use vcore::world::{doc, schema, stored_projection, Scratch};
+
 use crate::Ctx;
 
-pub fn run(_ctx: &Ctx) -> i32 {
-  eprintln!("C25: check not implemented");
-  2
+// ---------------------------------------------------------------------------------------------
+// Worlds: schema x corpus x history
+
+#[derive(Debug, Clone, PartialEq)]
+enum Op {
+  Add(Vec<Value>),
+  /// CLI `update` (documented alias of add); HTTP /bulk instead of /add
+  Update(Vec<Value>),
+  Delete(Vec<String>),
+  Commit,
+  Compact,
+}
+
+impl Op {
+  fn to_json(&self) -> Value {
+    match self {
+      Op::Add(d) => json!({"op": "add", "docs": d}),
+      Op::Update(d) => json!({"op": "update", "docs": d}),
+      Op::Delete(i) => json!({"op": "delete", "ids": i}),
+      Op::Commit => json!({"op": "commit"}),
+      Op::Compact => json!({"op": "compact"}),
+    }
+  }
+  fn from_json(v: &Value) -> Op {
+    let docs = || v["docs"].as_array().cloned().unwrap_or_default();
+    match v["op"].as_str().unwrap_or("") {
+      "add" => Op::Add(docs()),
+      "update" => Op::Update(docs()),
+      "delete" => Op::Delete(v["ids"].as_array().map(|a| a.iter().map(|x| x.as_str().unwrap().to_string()).collect()).unwrap_or_default()),
+      "compact" => Op::Compact,
+      _ => Op::Commit,
+    }
+  }
+  fn short(&self) -> String {
+    let ids = |d: &Vec<Value>| d.iter().map(|x| x["_id"].as_str().unwrap_or("?").to_string()).collect::<Vec<_>>().join(",");
+    match self {
+      Op::Add(d) => format!("add[{}]", ids(d)),
+      Op::Update(d) => format!("update[{}]", ids(d)),
+      Op::Delete(i) => format!("delete[{}]", i.join(",")),
+      Op::Commit => "commit".into(),
+      Op::Compact => "compact".into(),
+    }
+  }
+}
+
+#[derive(Debug, Clone)]
+struct FWorld {
+  corpus: String,
+  shape: String,
+  /// true: `Schema::default_text_body()` (what searchlite_index_open(create_if_missing) creates)
+  default_schema: bool,
+  schema_json: Value,
+  history: Vec<Op>,
+}
+
+impl FWorld {
+  fn to_json(&self) -> Value {
+    json!({"corpus": self.corpus, "shape": self.shape, "default_schema": self.default_schema, "schema_json": self.schema_json, "history": self.history.iter().map(|o| o.to_json()).collect::<Vec<_>>()})
+  }
+  fn from_json(v: &Value) -> FWorld {
+    FWorld {
+      corpus: v["corpus"].as_str().unwrap_or("").into(),
+      shape: v["shape"].as_str().unwrap_or("").into(),
+      default_schema: v["default_schema"].as_bool().unwrap_or(false),
+      schema_json: v["schema_json"].clone(),
+      history: v["history"].as_array().map(|a| a.iter().map(Op::from_json).collect()).unwrap_or_default(),
+    }
+  }
+  fn describe(&self) -> String {
+    format!("corpus {} history [{}]", self.corpus, self.history.iter().map(|o| o.short()).collect::<Vec<_>>().join(" "))
+  }
+  /// The FFI has add (= add + commit) and commit only.
+  fn ffi_expressible(&self) -> bool {
+    let only = self.history.iter().all(|o| matches!(o, Op::Add(_) | Op::Update(_) | Op::Commit));
+    // every add must be followed by a commit (the FFI cannot leave documents uncommitted)
+    let mut pending = false;
+    for o in &self.history {
+      match o {
+        Op::Add(_) | Op::Update(_) => pending = true,
+        Op::Commit => pending = false,
+        _ => {}
+      }
+    }
+    only && !pending
+  }
+  /// Reference model: id -> stored projection of the committed version.
+  fn model_contents(&self) -> BTreeMap<String, Value> {
+    let sch = schema(self.schema_json.clone());
+    let mut committed: BTreeMap<String, Value> = BTreeMap::new();
+    let mut pending: Vec<(String, Option<Value>)> = Vec::new();
+    for o in &self.history {
+      match o {
+        Op::Add(d) | Op::Update(d) => {
+          for x in d {
+            pending.push((x["_id"].as_str().unwrap().to_string(), Some(stored_projection(&sch, x))));
+          }
+        }
+        Op::Delete(ids) => {
+          for i in ids {
+            pending.push((i.clone(), None));
+          }
+        }
+        Op::Commit => {
+          for (id, v) in pending.drain(..) {
+            match v {
+              Some(v) => {
+                committed.insert(id, v);
+              }
+              None => {
+                committed.remove(&id);
+              }
+            }
+          }
+        }
+        Op::Compact => {}
+      }
+    }
+    committed
+  }
+}
+
+fn schema_kw() -> Value {
+  json!({"doc_id_field": "_id",
+    "text_fields": [{"name": "body", "analyzer": "default", "stored": true, "indexed": true}],
+    "keyword_fields": [{"name": "kw", "stored": true, "indexed": true, "fast": true}],
+    "numeric_fields": [{"name": "n", "i64": true, "fast": true, "stored": true}]})
+}
+
+fn schema_default() -> Value {
+  serde_json::to_value(searchlite_core::Schema::default_text_body()).expect("schema json")
+}
+
+/// (name, default schema?, documents)
+fn corpora(thorough: bool) -> Vec<(String, bool, Vec<Value>)> {
+  let mut v = vec![
+    ("dflt2".to_string(), true, vec![json!({"_id": "A", "body": "a b"}), json!({"_id": "B", "body": "a"})]),
+    ("empty".to_string(), false, vec![]),
+    ("one".to_string(), false, vec![json!({"_id": "A", "body": "a", "kw": "x", "n": 1})]),
+    ("two".to_string(), false, vec![json!({"_id": "A", "body": "a b", "kw": "x", "n": 1}), json!({"_id": "B", "body": "b a a", "kw": "y", "n": 2})]),
+    ("ties3".to_string(), false, vec![json!({"_id": "A", "body": "a", "kw": "x", "n": 1}), json!({"_id": "B", "body": "a", "kw": "x", "n": 1}), json!({"_id": "C", "body": "a", "kw": "y", "n": 2})]),
+    ("mixed3".to_string(), false, vec![json!({"_id": "A", "body": "a b c", "kw": ["x", "y"], "n": [1, 3]}), json!({"_id": "B", "body": "a"}), json!({"_id": "C", "body": "b caf\u{e9} a", "kw": "y", "n": 2})]),
+  ];
+  if thorough {
+    let shapes = [json!({"body": "a", "kw": "x", "n": 1}), json!({"body": "a b", "kw": "y", "n": 2}), json!({"body": "b b a", "kw": ["x", "y"]}), json!({"body": "c", "n": [2, 1]})];
+    // every multiset of 2 of the 4 shapes and of 3 of the first 3 shapes
+    for (k, nshapes) in [(2usize, 4usize), (3, 3)] {
+      for ms in vcore::inp::multisets(nshapes, k) {
+        let docs: Vec<Value> = ms
+          .iter()
+          .enumerate()
+          .map(|(i, s)| {
+            let mut d = shapes[*s].clone();
+            d["_id"] = json!(vcore::inp::id_of(i));
+            d
+          })
+          .collect();
+        v.push((format!("ms{}", ms.iter().map(|x| x.to_string()).collect::<String>()), false, docs));
+      }
+    }
+  }
+  v
+}
+
+/// The upserted version of a document: another text, another keyword.
+fn version2(d: &Value, default_schema: bool) -> Value {
+  if default_schema {
+    json!({"_id": d["_id"], "body": "b b"})
+  } else {
+    json!({"_id": d["_id"], "body": "b b", "kw": "z", "n": 9})
+  }
+}
+
+fn histories(docs: &[Value], default_schema: bool, thorough: bool) -> Vec<(String, Vec<Op>)> {
+  use Op::*;
+  let n = docs.len();
+  let mut h: Vec<(String, Vec<Op>)> = Vec::new();
+  if n == 0 {
+    h.push(("init-only".into(), vec![]));
+    h.push(("empty-commit".into(), vec![Commit]));
+    return h;
+  }
+  let all = docs.to_vec();
+  let d0 = docs[0].clone();
+  let id0 = d0["_id"].as_str().unwrap().to_string();
+  let d0v = version2(&d0, default_schema);
+  let rest: Vec<Value> = docs[1..].to_vec();
+  h.push(("add-commit".into(), vec![Add(all.clone()), Commit]));
+  h.push(("upsert-later".into(), vec![Add(all.clone()), Commit, Update(vec![d0v.clone()]), Commit]));
+  h.push(("upsert-same-batch".into(), vec![Add(all.clone()), Update(vec![d0v.clone()]), Commit]));
+  h.push(("delete-later".into(), vec![Add(all.clone()), Commit, Delete(vec![id0.clone()]), Commit]));
+  h.push(("delete-same-batch".into(), vec![Add(all.clone()), Delete(vec![id0.clone()]), Commit]));
+  h.push(("uncommitted".into(), vec![Add(all.clone())]));
+  h.push(("uncommitted-delete".into(), vec![Add(all.clone()), Commit, Delete(vec![id0.clone()])]));
+  h.push(("delete-readd".into(), vec![Add(all.clone()), Commit, Delete(vec![id0.clone()]), Add(vec![d0v.clone()]), Commit]));
+  {
+    let mut dup = vec![d0.clone(), d0v.clone()];
+    dup.extend(rest.clone());
+    h.push(("dup-in-file".into(), vec![Add(dup), Commit]));
+  }
+  if n >= 2 {
+    h.push(("split".into(), vec![Add(vec![d0.clone()]), Commit, Add(rest.clone()), Commit]));
+    h.push(("split-compact".into(), vec![Add(vec![d0.clone()]), Commit, Add(rest.clone()), Commit, Compact]));
+    h.push(("split-delete-compact".into(), vec![Add(vec![d0.clone()]), Commit, Add(rest.clone()), Commit, Delete(vec![id0.clone()]), Commit, Compact]));
+    h.push(("uncommitted-tail".into(), vec![Add(vec![d0.clone()]), Commit, Add(rest.clone())]));
+  }
+  if thorough {
+    h.push(("upsert-compact".into(), vec![Add(all.clone()), Commit, Update(vec![d0v.clone()]), Commit, Compact]));
+    h.push(("compact-then-upsert".into(), vec![Add(all.clone()), Commit, Update(vec![d0v.clone()]), Commit, Compact, Update(vec![d0.clone()]), Commit]));
+    h.push(("delete-all".into(), vec![Add(all.clone()), Commit, Delete(docs.iter().map(|d| d["_id"].as_str().unwrap().to_string()).collect()), Commit]));
+    h.push(("double-commit".into(), vec![Add(all.clone()), Commit, Commit]));
+    h.push(("delete-missing".into(), vec![Add(all.clone()), Commit, Delete(vec!["nope".into()]), Commit]));
+    h.push(("per-doc-commits".into(), docs.iter().flat_map(|d| vec![Add(vec![d.clone()]), Commit]).collect()));
+    if n >= 2 {
+      h.push(("upsert-across-segments".into(), vec![Add(vec![d0.clone()]), Commit, Add(rest.clone()), Update(vec![d0v.clone()]), Commit]));
+    }
+  }
+  h
+}
+
+fn worlds(thorough: bool) -> Vec<FWorld> {
+  let mut out = Vec::new();
+  for (name, dflt, docs) in corpora(thorough) {
+    // the multiset corpora of the thorough tier get the core shapes only
+    let extra = thorough && !name.starts_with("ms");
+    for (shape, history) in histories(&docs, dflt, extra) {
+      out.push(FWorld { corpus: name.clone(), shape, default_schema: dflt, schema_json: if dflt { schema_default() } else { schema_kw() }, history });
+    }
+  }
+  // simplest first
+  out.sort_by_key(|w| w.history.iter().map(|o| match o { Op::Add(d) | Op::Update(d) => 1 + d.len(), _ => 1 }).sum::<usize>());
+  out
+}
+
+// ---------------------------------------------------------------------------------------------
+// Requests
+
+#[derive(Debug, Clone)]
+struct Req {
+  name: String,
+  /// the full request payload (`--request` file, HTTP /search body, SearchRequest for the library)
+  json: Value,
+  /// the same request written with the documented CLI flags, when expressible
+  flags: Option<Vec<String>>,
+  /// follow next_cursor until it disappears
+  walk: bool,
+}
+
+fn aggs_json() -> Value {
+  json!({"k": {"type": "terms", "field": "kw", "size": 5}, "s": {"type": "stats", "field": "n"}})
+}
+
+fn s(x: &str) -> String {
+  x.to_string()
+}
+
+fn requests(thorough: bool) -> Vec<Req> {
+  let r = |name: &str, json: Value, flags: Option<Vec<&str>>, walk: bool| Req { name: name.into(), json, flags: flags.map(|f| f.into_iter().map(s).collect()), walk };
+  let aggs_text = aggs_json().to_string();
+  let mut v = vec![
+    r("qs-defaults", json!({"query": "a", "limit": 10, "return_stored": false}), Some(vec!["-q", "a"]), false),
+    r("qs", json!({"query": "a", "limit": 10, "return_stored": true}), Some(vec!["-q", "a", "--limit", "10", "--return-stored"]), false),
+    r("qs-two-terms", json!({"query": "b a", "limit": 10, "return_stored": true}), Some(vec!["--query", "b a", "--limit", "10", "--return-stored"]), false),
+    r("qs-field-negation", json!({"query": "body:a -b", "limit": 10, "return_stored": true}), Some(vec!["-q", "body:a -b", "--return-stored"]), false),
+    r("node-query-string", json!({"query": {"type": "query_string", "query": "a b"}, "limit": 10, "return_stored": true}), None, false),
+    r("node-bool", json!({"query": {"type": "bool", "must": [{"type": "term", "field": "body", "value": "a"}], "must_not": [{"type": "term", "field": "body", "value": "c"}]}, "limit": 10, "return_stored": true}), None, false),
+    r("sort-n-desc-kw", json!({"query": "a", "limit": 10, "return_stored": true, "sort": [{"field": "n", "order": "desc"}, {"field": "kw"}]}), Some(vec!["-q", "a", "--return-stored", "--sort", "n:desc,kw"]), false),
+    r("sort-kw-asc", json!({"query": {"type": "match_all"}, "limit": 10, "return_stored": false, "sort": [{"field": "kw", "order": "asc"}]}), None, false),
+    r("sort-score-asc", json!({"query": "a b", "limit": 10, "return_stored": false, "sort": [{"field": "_score", "order": "asc"}]}), Some(vec!["-q", "a b", "--sort", "_score:asc"]), false),
+    r("walk-qs", json!({"query": "a", "limit": 1, "return_stored": true}), Some(vec!["-q", "a", "--limit", "1", "--return-stored"]), true),
+    r("walk-sorted", json!({"query": "a", "limit": 1, "return_stored": false, "sort": [{"field": "n", "order": "desc"}]}), Some(vec!["-q", "a", "--limit", "1", "--sort", "n:desc"]), true),
+    r("walk-match-all-2", json!({"query": {"type": "match_all"}, "limit": 2, "return_stored": true}), None, true),
+    r("aggs", json!({"query": "a", "limit": 10, "return_stored": true, "aggs": aggs_json()}), Some(vec!["-q", "a", "--limit", "10", "--return-stored", "--aggs", &aggs_text]), false),
+    r("aggs-file", json!({"query": "b", "limit": 10, "return_stored": false, "aggs": aggs_json()}), Some(vec!["-q", "b", "--aggs-file", "@AGGS_FILE@"]), false),
+    r("aggs-no-hits", json!({"query": "a", "limit": 10, "return_stored": false, "return_hits": false, "aggs": aggs_json()}), None, false),
+    r("exec-bm25", json!({"query": "a b", "limit": 10, "return_stored": false, "execution": "bm25"}), Some(vec!["-q", "a b", "--execution", "bm25"]), false),
+    r("exec-bmw", json!({"query": "a b", "limit": 10, "return_stored": false, "execution": "bmw", "bmw_block_size": 2}), Some(vec!["-q", "a b", "--execution", "bmw", "--bmw-block-size", "2"]), false),
+    r("filter-kw", json!({"query": "a", "limit": 10, "return_stored": true, "filter": {"KeywordEq": {"field": "kw", "value": "x"}}}), None, false),
+    r("highlight", json!({"query": "a", "limit": 10, "return_stored": true, "highlight_field": "body"}), None, false),
+    r("err-sort-unknown", json!({"query": "a", "limit": 10, "return_stored": false, "sort": [{"field": "nope", "order": "asc"}]}), Some(vec!["-q", "a", "--sort", "nope:asc"]), false),
+  ];
+  if thorough {
+    v.extend(vec![
+      r("qs-phrase", json!({"query": "\"a b\"", "limit": 10, "return_stored": true}), Some(vec!["-q", "\"a b\"", "--return-stored"]), false),
+      r("qs-none", json!({"query": "zzz", "limit": 10, "return_stored": true}), Some(vec!["-q", "zzz", "--return-stored"]), false),
+      r("qs-unicode", json!({"query": "caf\u{e9}", "limit": 10, "return_stored": true}), Some(vec!["-q", "caf\u{e9}", "--return-stored"]), false),
+      r("node-match-all", json!({"query": {"type": "match_all"}, "limit": 10, "return_stored": true}), None, false),
+      r("node-prefix", json!({"query": {"type": "prefix", "field": "body", "value": "ca"}, "limit": 10, "return_stored": false}), None, false),
+      r("filter-range", json!({"query": {"type": "match_all"}, "limit": 10, "return_stored": false, "filter": {"And": [{"I64Range": {"field": "n", "min": 1, "max": 2}}, {"Not": {"KeywordEq": {"field": "kw", "value": "y"}}}]}}), None, false),
+      r("fuzzy", json!({"query": {"type": "query_string", "query": "body:caff"}, "fuzzy": {"max_edits": 1, "prefix_length": 1, "max_expansions": 20, "min_length": 3}, "limit": 10, "return_stored": false}), None, false),
+      r("limit-1-sorted", json!({"query": "a", "limit": 1, "return_stored": true, "sort": [{"field": "n", "order": "asc"}, {"field": "kw", "order": "desc"}]}), Some(vec!["-q", "a", "--limit", "1", "--return-stored", "--sort", "n:asc,kw:desc"]), false),
+      r("walk-aggs", json!({"query": {"type": "match_all"}, "limit": 1, "return_stored": false, "aggs": aggs_json()}), None, true),
+      r("walk-bm25", json!({"query": "a", "limit": 2, "return_stored": false, "execution": "bm25"}), Some(vec!["-q", "a", "--limit", "2", "--execution", "bm25"]), true),
+      r("profile", json!({"query": "a b", "limit": 10, "return_stored": false, "profile": true, "execution": "bm25"}), None, false),
+      r("explain", json!({"query": "a b", "limit": 10, "return_stored": false, "explain": true}), None, false),
+      r("collapse", json!({"query": "a", "limit": 10, "return_stored": false, "collapse": {"field": "kw"}}), None, false),
+      r("sort-order-upper", json!({"query": "a", "limit": 10, "return_stored": false, "sort": [{"field": "n", "order": "desc"}]}), Some(vec!["-q", "a", "--sort", "n:DESC"]), false),
+      r("err-filter-unknown", json!({"query": "a", "limit": 10, "return_stored": false, "filter": {"KeywordEq": {"field": "nope", "value": "x"}}}), None, false),
+      r("err-aggs-unknown-field", json!({"query": "a", "limit": 10, "return_stored": false, "aggs": {"k": {"type": "terms", "field": "nope"}}}), Some(vec!["-q", "a", "--aggs", "{\"k\":{\"type\":\"terms\",\"field\":\"nope\"}}"]), false),
+    ]);
+  }
+  v
+}
+
+/// Expressible through searchlite_search(query, limit, cursor, aggs): the FFI always uses the
+/// default execution (wand), no sort, return_stored = true.
+fn ffi_expressible(r: &Value) -> bool {
+  let o = r.as_object().unwrap();
+  o.iter().all(|(k, v)| match k.as_str() {
+    "query" | "limit" | "aggs" | "cursor" => true,
+    "return_stored" => v == &json!(true),
+    "execution" => v == &json!("wand"),
+    _ => false,
+  })
+}
+
+// ---------------------------------------------------------------------------------------------
+// Outcome of one search through one front end
+
+#[derive(Debug, Clone)]
+enum Out {
+  Ok(Value),
+  /// the front end reported an error (CLI: non-zero exit; HTTP: non-2xx; FFI: status 0; library: Err)
+  Err(String),
+  /// the front end misbehaved in a way that is not an error report (unparsable output, ...)
+  Broken(String),
+}
+
+// ---------------------------------------------------------------------------------------------
+// CLI binary
+
+/// `<target>/cli` next to the running executable's profile directory.
+fn cli_target_dir() -> PathBuf {
+  let exe = std::env::current_exe().unwrap_or_else(|e| vcore::ev::machinery_failure(&format!("current_exe: {e}")));
+  let target = exe.parent().and_then(|p| p.parent()).unwrap_or_else(|| vcore::ev::machinery_failure("current_exe has no grand-parent"));
+  target.join("cli")
+}
+
+/// Build the CLI from /repo's working tree (plain build, no RUSTFLAGS); fast no-op when fresh.
+fn build_cli() -> (PathBuf, f64) {
+  let t0 = std::time::Instant::now();
+  let dir = cli_target_dir();
+  let out = Command::new("cargo")
+    .args(["build", "--offline", "--manifest-path", "/repo/Cargo.toml", "-p", "searchlite-cli", "--target-dir"])
+    .arg(&dir)
+    .current_dir("/repo")
+    .env("CARGO_NET_OFFLINE", "true")
+    .env_remove("RUSTFLAGS")
+    .env_remove("CARGO_ENCODED_RUSTFLAGS")
+    .env_remove("CARGO_BUILD_RUSTFLAGS")
+    .env_remove("CARGO_TARGET_DIR")
+    .env_remove("RUSTC_WRAPPER")
+    .stdin(Stdio::null())
+    .output();
+  let out = match out {
+    Ok(o) => o,
+    Err(e) => vcore::ev::machinery_failure(&format!("cannot spawn cargo to build searchlite-cli: {e}")),
+  };
+  if !out.status.success() {
+    let err = String::from_utf8_lossy(&out.stderr);
+    let tail: Vec<&str> = err.lines().rev().take(30).collect();
+    vcore::ev::machinery_failure(&format!("building searchlite-cli failed:\n{}", tail.into_iter().rev().collect::<Vec<_>>().join("\n")));
+  }
+  let name = "searchlite-cli";
+  let bin = dir.join("debug").join(name);
+  if !bin.is_file() {
+    vcore::ev::machinery_failure(&format!("CLI binary {} missing after a successful build", bin.display()));
+  }
+  (bin, t0.elapsed().as_secs_f64())
+}
+
+struct CliRun {
+  code: Option<i32>,
+  stdout: String,
+  stderr: String,
+}
+
+fn cli(bin: &Path, args: &[String], stdin: Option<&str>) -> CliRun {
+  let mut c = Command::new(bin);
+  c.args(args).env("RUST_BACKTRACE", "0").env_remove("RUST_LOG").stdout(Stdio::piped()).stderr(Stdio::piped());
+  c.stdin(if stdin.is_some() { Stdio::piped() } else { Stdio::null() });
+  let mut child = match c.spawn() {
+    Ok(c) => c,
+    Err(e) => vcore::ev::machinery_failure(&format!("cannot spawn {}: {e}", bin.display())),
+  };
+  if let Some(s) = stdin {
+    let mut si = child.stdin.take().unwrap();
+    let _ = si.write_all(s.as_bytes());
+  }
+  let out = child.wait_with_output().unwrap_or_else(|e| vcore::ev::machinery_failure(&format!("waiting for the CLI: {e}")));
+  CliRun { code: out.status.code(), stdout: String::from_utf8_lossy(&out.stdout).to_string(), stderr: String::from_utf8_lossy(&out.stderr).to_string() }
+}
+
+fn first_line(s: &str) -> String {
+  s.lines().find(|l| !l.trim().is_empty()).unwrap_or("").chars().take(200).collect()
+}
+
+struct CliFe {
+  bin: PathBuf,
+  idx: PathBuf,
+  tmp: PathBuf,
+  n: u64,
+}
+
+impl CliFe {
+  fn file(&mut self, tag: &str, content: &str) -> String {
+    self.n += 1;
+    let p = self.tmp.join(format!("{tag}{}", self.n));
+    std::fs::write(&p, content).unwrap_or_else(|e| vcore::ev::machinery_failure(&format!("write {}: {e}", p.display())));
+    p.to_string_lossy().to_string()
+  }
+  fn idx(&self) -> String {
+    self.idx.to_string_lossy().to_string()
+  }
+  fn cmd(&mut self, args: Vec<String>) -> Result<(), String> {
+    let r = cli(&self.bin, &args, None);
+    if r.code == Some(0) {
+      Ok(())
+    } else {
+      Err(format!("`searchlite-cli {}` exited with {:?}: {}", args[0], r.code, first_line(&r.stderr)))
+    }
+  }
+  fn init(&mut self, schema_json: &Value) -> Result<(), String> {
+    let f = self.file("schema", &schema_json.to_string());
+    self.cmd(vec![s("init"), self.idx(), f])
+  }
+  fn apply(&mut self, op: &Op) -> Result<(), String> {
+    match op {
+      Op::Add(d) | Op::Update(d) => {
+        let body: String = d.iter().map(|x| format!("{x}\n")).collect();
+        let f = self.file("docs", &body);
+        self.cmd(vec![s(if matches!(op, Op::Add(_)) { "add" } else { "update" }), self.idx(), f])
+      }
+      Op::Delete(ids) => {
+        let f = self.file("ids", &ids.iter().map(|i| format!("{i}\n")).collect::<String>());
+        self.cmd(vec![s("delete"), self.idx(), f])
+      }
+      Op::Commit => self.cmd(vec![s("commit"), self.idx()]),
+      Op::Compact => self.cmd(vec![s("compact"), self.idx()]),
+    }
+  }
+  fn finish(r: CliRun) -> Out {
+    match r.code {
+      Some(0) => match serde_json::from_str::<Value>(&r.stdout) {
+        Ok(v) => Out::Ok(v),
+        Err(e) => Out::Broken(format!("exit 0 but stdout is not JSON ({e}): {}", first_line(&r.stdout))),
+      },
+      Some(c) => Out::Err(format!("exit {c}: {}", first_line(&r.stderr))),
+      None => Out::Broken(format!("killed by a signal: {}", first_line(&r.stderr))),
+    }
+  }
+  /// `search <index> --request <file>` (odd calls: `--request-stdin`)
+  fn search_request(&mut self, req: &Value, stdin: bool) -> Out {
+    if stdin {
+      Self::finish(cli(&self.bin, &[s("search"), self.idx(), s("--request-stdin")], Some(&req.to_string())))
+    } else {
+      let f = self.file("req", &req.to_string());
+      Self::finish(cli(&self.bin, &[s("search"), self.idx(), s("--request"), f], None))
+    }
+  }
+  fn search_flags(&mut self, flags: &[String], cursor: Option<&str>) -> Out {
+    let mut args = vec![s("search"), self.idx()];
+    for f in flags {
+      if f == "@AGGS_FILE@" {
+        let p = self.file("aggs", &aggs_json().to_string());
+        args.push(p);
+      } else {
+        args.push(f.clone());
+      }
+    }
+    if let Some(c) = cursor {
+      args.push(s("--cursor"));
+      args.push(s(c));
+    }
+    Self::finish(cli(&self.bin, &args, None))
+  }
+}
+
+// ---------------------------------------------------------------------------------------------
+// HTTP service (in-process, raw HTTP/1.1)
+
+struct Http {
+  rt: tokio::runtime::Runtime,
+  start_lock: Mutex<()>,
+}
+
+struct HttpFe {
+  port: u16,
+  task: tokio::task::JoinHandle<anyhow::Result<()>>,
+}
+
+impl Drop for HttpFe {
+  fn drop(&mut self) {
+    self.task.abort();
+  }
+}
+
+fn http_call(port: u16, method: &str, path: &str, ctype: Option<&str>, body: &[u8]) -> Result<(u16, Vec<u8>), String> {
+  let mut st = TcpStream::connect(("127.0.0.1", port)).map_err(|e| format!("connect: {e}"))?;
+  st.set_read_timeout(Some(Duration::from_secs(60))).ok();
+  st.set_write_timeout(Some(Duration::from_secs(60))).ok();
+  let mut head = format!("{method} {path} HTTP/1.1\r\nHost: 127.0.0.1:{port}\r\nConnection: close\r\nAccept: */*\r\n");
+  if let Some(c) = ctype {
+    head.push_str(&format!("Content-Type: {c}\r\n"));
+  }
+  if method == "POST" {
+    head.push_str(&format!("Content-Length: {}\r\n", body.len()));
+  }
+  head.push_str("\r\n");
+  let mut msg = head.into_bytes();
+  msg.extend_from_slice(body);
+  st.write_all(&msg).map_err(|e| format!("write: {e}"))?;
+  let mut raw = Vec::new();
+  st.read_to_end(&mut raw).map_err(|e| format!("read: {e}"))?;
+  let split = raw.windows(4).position(|w| w == b"\r\n\r\n").ok_or_else(|| format!("no header end in {} bytes", raw.len()))?;
+  let head = String::from_utf8_lossy(&raw[..split]).to_string();
+  let mut lines = head.lines();
+  let status: u16 = lines.next().and_then(|l| l.split(' ').nth(1)).and_then(|c| c.parse().ok()).ok_or_else(|| format!("bad status line in {head:?}"))?;
+  let mut chunked = false;
+  let mut clen: Option<usize> = None;
+  for l in lines {
+    let low = l.to_ascii_lowercase();
+    if let Some(v) = low.strip_prefix("transfer-encoding:") {
+      chunked = v.contains("chunked");
+    }
+    if let Some(v) = low.strip_prefix("content-length:") {
+      clen = v.trim().parse().ok();
+    }
+  }
+  let rest = &raw[split + 4..];
+  let body = if chunked {
+    let mut out = Vec::new();
+    let mut i = 0;
+    loop {
+      let e = rest[i..].windows(2).position(|w| w == b"\r\n").ok_or("bad chunk header")? + i;
+      let n = usize::from_str_radix(String::from_utf8_lossy(&rest[i..e]).split(';').next().unwrap_or("").trim(), 16).map_err(|e| format!("bad chunk size: {e}"))?;
+      if n == 0 {
+        break;
+      }
+      if e + 2 + n > rest.len() {
+        return Err("truncated chunk".into());
+      }
+      out.extend_from_slice(&rest[e + 2..e + 2 + n]);
+      i = e + 2 + n + 2;
+    }
+    out
+  } else {
+    match clen {
+      Some(n) if n <= rest.len() => rest[..n].to_vec(),
+      Some(n) => return Err(format!("body shorter ({}) than Content-Length {n}", rest.len())),
+      None => rest.to_vec(),
+    }
+  };
+  Ok((status, body))
+}
+
+impl Http {
+  fn new() -> Http {
+    let rt = tokio::runtime::Builder::new_multi_thread().worker_threads(4).enable_all().build().unwrap_or_else(|e| vcore::ev::machinery_failure(&format!("tokio runtime: {e}")));
+    // searchlite_http::run installs SIGINT/SIGTERM listeners (graceful shutdown); keep the check
+    // killable: leave on the first such signal
+    rt.spawn(async {
+      use tokio::signal::unix::{signal, SignalKind};
+      let mut term = signal(SignalKind::terminate()).expect("sigterm");
+      let mut int = signal(SignalKind::interrupt()).expect("sigint");
+      tokio::select! { _ = term.recv() => {}, _ = int.recv() => {} }
+      vcore::world::cleanup_scratch_root();
+      std::process::exit(130);
+    });
+    Http { rt, start_lock: Mutex::new(()) }
+  }
+
+  /// Start `searchlite_http::run` for `index` on a free loopback port.
+  fn serve(&self, index: &Path) -> HttpFe {
+    let _g = self.start_lock.lock();
+    let mut last = String::new();
+    for _attempt in 0..20 {
+      let port = match std::net::TcpListener::bind("127.0.0.1:0").and_then(|l| l.local_addr()) {
+        Ok(a) => a.port(),
+        Err(e) => {
+          last = format!("probe bind: {e}");
+          continue;
+        }
+      };
+      let args = <searchlite_http::ServeArgs as clap::Parser>::try_parse_from(["searchlite-http", "--index", &index.to_string_lossy(), "--bind", &format!("127.0.0.1:{port}"), "--shutdown-grace-secs", "0", "--request-timeout-secs", "120"]);
+      let args = match args {
+        Ok(a) => a,
+        Err(e) => vcore::ev::machinery_failure(&format!("ServeArgs: {e}")),
+      };
+      let task = self.rt.spawn(searchlite_http::run(args));
+      let t0 = std::time::Instant::now();
+      let mut up = false;
+      while t0.elapsed() < Duration::from_secs(20) {
+        if task.is_finished() {
+          break;
+        }
+        if let Ok((200, _)) = http_call(port, "GET", "/healthz", None, b"") {
+          up = true;
+          break;
+        }
+        std::thread::sleep(Duration::from_millis(2));
+      }
+      std::thread::sleep(Duration::from_millis(2));
+      if up && !task.is_finished() {
+        return HttpFe { port, task };
+      }
+      last = format!("server on port {port} did not come up (finished: {})", task.is_finished());
+      task.abort();
+    }
+    vcore::ev::machinery_failure(&format!("cannot start the HTTP service: {last}"));
+  }
+}
+
+impl HttpFe {
+  fn post(&self, path: &str, ctype: Option<&str>, body: &[u8]) -> Result<Value, String> {
+    let (st, b) = http_call(self.port, "POST", path, ctype, body).unwrap_or_else(|e| vcore::ev::machinery_failure(&format!("HTTP transport failure on POST {path}: {e}")));
+    let v: Value = serde_json::from_slice(&b).map_err(|e| format!("POST {path}: status {st}, body is not JSON ({e}): {}", first_line(&String::from_utf8_lossy(&b))))?;
+    if (200..300).contains(&st) {
+      Ok(v)
+    } else {
+      Err(format!("POST {path}: status {st}: {v}"))
+    }
+  }
+  fn init(&self, index: &Path, schema_json: &Value) -> Result<(), String> {
+    self.post("/init", Some("application/json"), schema_json.to_string().as_bytes())?;
+    // identity check: this really is the server for our directory (documented /stats field)
+    let (st, b) = http_call(self.port, "GET", "/stats", None, b"").map_err(|e| format!("GET /stats: {e}"))?;
+    let v: Value = serde_json::from_slice(&b).unwrap_or(Value::Null);
+    if st != 200 || v["index_path"].as_str() != Some(&index.display().to_string()) {
+      vcore::ev::machinery_failure(&format!("HTTP server on port {} is not serving {} (status {st}, {v})", self.port, index.display()));
+    }
+    Ok(())
+  }
+  fn apply(&self, op: &Op) -> Result<(), String> {
+    match op {
+      Op::Add(d) => {
+        let body: String = d.iter().map(|x| format!("{x}\n")).collect();
+        let v = self.post("/add", Some("application/x-ndjson"), body.as_bytes())?;
+        if v["queued"].as_u64() != Some(d.len() as u64) {
+          return Err(format!("/add of {} documents answered {v}", d.len()));
+        }
+        Ok(())
+      }
+      Op::Update(d) => {
+        let v = self.post("/bulk", Some("application/json"), json!({"docs": d}).to_string().as_bytes())?;
+        if v["queued"].as_u64() != Some(d.len() as u64) {
+          return Err(format!("/bulk of {} documents answered {v}", d.len()));
+        }
+        Ok(())
+      }
+      Op::Delete(ids) => self.post("/delete", Some("application/json"), json!({"ids": ids}).to_string().as_bytes()).map(|_| ()),
+      Op::Commit => self.post("/commit", None, b"").map(|_| ()),
+      Op::Compact => self.post("/compact", None, b"").map(|_| ()),
+    }
+  }
+  fn search(&self, req: &Value) -> Out {
+    let (st, b) = http_call(self.port, "POST", "/search", Some("application/json"), req.to_string().as_bytes()).unwrap_or_else(|e| vcore::ev::machinery_failure(&format!("HTTP transport failure on /search: {e}")));
+    let v: Value = match serde_json::from_slice(&b) {
+      Ok(v) => v,
+      Err(e) => return Out::Broken(format!("status {st}, body is not JSON ({e}): {}", first_line(&String::from_utf8_lossy(&b)))),
+    };
+    if (200..300).contains(&st) {
+      return Out::Ok(v);
+    }
+    // README: "All errors return {"error":{"type":"...","reason":"..."}}"
+    if v["error"]["type"].is_string() && v["error"]["reason"].is_string() {
+      Out::Err(format!("status {st}: {}", v["error"]))
+    } else {
+      Out::Broken(format!("status {st} without the documented error body: {v}"))
+    }
+  }
+}
+
+// ---------------------------------------------------------------------------------------------
+// FFI
+
+struct FfiFe {
+  h: *mut searchlite_ffi::IndexHandle,
+}
+
+impl Drop for FfiFe {
+  fn drop(&mut self) {
+    unsafe { searchlite_ffi::searchlite_index_close(self.h) }
+  }
+}
+
+impl FfiFe {
+  fn open(dir: &Path, create: bool) -> Result<FfiFe, String> {
+    let p = CString::new(dir.to_string_lossy().to_string()).unwrap();
+    let h = unsafe { searchlite_ffi::searchlite_index_open(p.as_ptr(), create) };
+    if h.is_null() {
+      return Err("searchlite_index_open returned null".into());
+    }
+    Ok(FfiFe { h })
+  }
+  fn apply(&self, op: &Op) -> Result<(), String> {
+    match op {
+      Op::Add(d) | Op::Update(d) => {
+        for x in d {
+          let js = CString::new(x.to_string()).unwrap();
+          let rc = unsafe { searchlite_ffi::searchlite_add_json(self.h, js.as_ptr(), js.as_bytes().len()) };
+          if rc < 0 {
+            return Err(format!("searchlite_add_json({x}) returned {rc}"));
+          }
+        }
+        Ok(())
+      }
+      Op::Commit => {
+        let rc = unsafe { searchlite_ffi::searchlite_commit(self.h) };
+        if rc != 0 {
+          return Err(format!("searchlite_commit returned {rc}"));
+        }
+        Ok(())
+      }
+      _ => Err("not expressible".into()),
+    }
+  }
+  /// `req` must satisfy ffi_expressible.
+  fn search(&self, req: &Value) -> Out {
+    let q = match &req["query"] {
+      Value::String(x) => x.clone(),
+      o => o.to_string(),
+    };
+    let q = CString::new(q).unwrap();
+    let cur = req["cursor"].as_str().map(|c| CString::new(c).unwrap());
+    let aggs = req.get("aggs").map(|a| a.to_string());
+    let mut buf = vec![0u8; 1 << 18];
+    let n = unsafe {
+      searchlite_ffi::searchlite_search(
+        self.h,
+        q.as_ptr(),
+        req["limit"].as_u64().unwrap_or(10) as usize,
+        cur.as_ref().map(|c| c.as_ptr()).unwrap_or(std::ptr::null()),
+        aggs.as_ref().map(|a| a.as_ptr() as *const c_char).unwrap_or(std::ptr::null()),
+        aggs.as_ref().map(|a| a.len()).unwrap_or(0),
+        buf.as_mut_ptr() as *mut c_char,
+        buf.len(),
+      )
+    };
+    if n == 0 {
+      return Out::Err("status 0".into());
+    }
+    match serde_json::from_slice::<Value>(&buf[..n]) {
+      Ok(v) => Out::Ok(v),
+      Err(e) => Out::Broken(format!("{n} bytes that are not JSON ({e})")),
+    }
+  }
+}
+
+// ---------------------------------------------------------------------------------------------
+// Library mirror
+
+fn lib_opts(dir: &Path) -> searchlite_core::api::types::IndexOptions {
+  // what all three front ends pass (and README documents): positions on, k1 0.9, b 0.4, filesystem
+  let mut o = vcore::world::opts(dir, StorageType::Filesystem);
+  o.bm25_k1 = 0.9;
+  o.bm25_b = 0.4;
+  // detector self-test (never set by ./check): a mirror with the library's own default BM25
+  // parameters must make score comparisons fail
+  if std::env::var("VERIF_C25_SELFTEST").as_deref() == Ok("bm25-defaults") {
+    o.bm25_k1 = 1.2;
+    o.bm25_b = 0.75;
+  }
+  o
+}
+
+struct LibFe {
+  idx: Index,
+  writer: Option<IndexWriter>,
+  /// FFI-equivalent call pattern: every add is followed by a commit
+  commit_each_add: bool,
+}
+
+impl LibFe {
+  fn create(dir: &Path, schema_json: &Value, commit_each_add: bool) -> Result<LibFe, String> {
+    let idx = Index::create(dir, schema(schema_json.clone()), lib_opts(dir)).map_err(|e| format!("Index::create: {e:#}"))?;
+    Ok(LibFe { idx, writer: None, commit_each_add })
+  }
+  fn w(&mut self) -> Result<&mut IndexWriter, String> {
+    if self.writer.is_none() {
+      self.writer = Some(self.idx.writer().map_err(|e| format!("writer: {e:#}"))?);
+    }
+    Ok(self.writer.as_mut().unwrap())
+  }
+  fn apply(&mut self, op: &Op) -> Result<(), String> {
+    match op {
+      Op::Add(d) | Op::Update(d) => {
+        for x in d {
+          self.w()?.add_document(&doc(x)).map_err(|e| format!("add_document: {e:#}"))?;
+          if self.commit_each_add {
+            self.w()?.commit().map_err(|e| format!("commit: {e:#}"))?;
+            self.writer = None;
+          }
+        }
+        Ok(())
+      }
+      Op::Delete(ids) => self.w()?.delete_documents(ids).map_err(|e| format!("delete_documents: {e:#}")),
+      Op::Commit => {
+        self.w()?.commit().map_err(|e| format!("commit: {e:#}"))?;
+        self.writer = None;
+        Ok(())
+      }
+      Op::Compact => self.idx.compact().map_err(|e| format!("compact: {e:#}")),
+    }
+  }
+  fn search(&self, req: &Value) -> Out {
+    let r: SearchRequest = match serde_json::from_value(req.clone()) {
+      Ok(r) => r,
+      Err(e) => return Out::Err(format!("request does not deserialize: {e}")),
+    };
+    let res = vcore::catch(|| self.idx.reader().and_then(|rd| rd.search(&r)));
+    match res {
+      Ok(Ok(v)) => Out::Ok(serde_json::to_value(&v).expect("result json")),
+      Ok(Err(e)) => Out::Err(format!("{e:#}")),
+      Err(p) => Out::Broken(format!("PANIC: {p}")),
+    }
+  }
+}
+
+// ---------------------------------------------------------------------------------------------
+// Comparison
+
+fn num_eq(a: &Value, b: &Value) -> bool {
+  if let (Some(x), Some(y)) = (a.as_i64(), b.as_i64()) {
+    return x == y;
+  }
+  if let (Some(x), Some(y)) = (a.as_u64(), b.as_u64()) {
+    return x == y;
+  }
+  match (a.as_f64(), b.as_f64()) {
+    (Some(x), Some(y)) => x == y || (x - y).abs() <= 1e-5 * x.abs().max(y.abs()).max(1e-6),
+    _ => false,
+  }
+}
+
+/// Structural equality with a relative tolerance of 1e-5 on numbers.
+fn deep_eq(a: &Value, b: &Value, path: &str) -> Result<(), String> {
+  match (a, b) {
+    (Value::Number(_), Value::Number(_)) => {
+      if num_eq(a, b) {
+        Ok(())
+      } else {
+        Err(format!("{path}: expected {a}, got {b}"))
+      }
+    }
+    (Value::Array(x), Value::Array(y)) => {
+      if x.len() != y.len() {
+        return Err(format!("{path}: expected {} elements, got {} (expected {a}, got {b})", x.len(), y.len()));
+      }
+      for (i, (p, q)) in x.iter().zip(y).enumerate() {
+        deep_eq(p, q, &format!("{path}[{i}]"))?;
+      }
+      Ok(())
+    }
+    (Value::Object(x), Value::Object(y)) => {
+      let kx: BTreeSet<&String> = x.keys().collect();
+      let ky: BTreeSet<&String> = y.keys().collect();
+      if kx != ky {
+        return Err(format!("{path}: expected keys {kx:?}, got {ky:?}"));
+      }
+      for (k, p) in x {
+        deep_eq(p, &y[k], &format!("{path}.{k}"))?;
+      }
+      Ok(())
+    }
+    _ => {
+      if a == b {
+        Ok(())
+      } else {
+        Err(format!("{path}: expected {a}, got {b}"))
+      }
+    }
+  }
+}
+
+/// Drop what is documented as run specific: profile.timings; the cursor is opaque (presence only).
+fn normalize(v: &Value) -> (Value, Vec<Value>) {
+  let mut o: Map<String, Value> = v.as_object().cloned().unwrap_or_default();
+  let hits = o.remove("hits").and_then(|h| h.as_array().cloned()).unwrap_or_default();
+  if let Some(c) = o.get_mut("next_cursor") {
+    *c = json!(c.is_string());
+  }
+  if let Some(p) = o.get_mut("profile").and_then(|p| p.as_object_mut()) {
+    p.remove("timings");
+  }
+  (Value::Object(o), hits)
+}
+
+/// Hits in order; when the order is by score, hits whose scores differ by < 1e-5 (relative) form a
+/// tie class inside which any order is accepted.
+fn compare_hits(exp: &[Value], got: &[Value], score_ordered: bool) -> Result<(), String> {
+  if exp.len() != got.len() {
+    let ids = |h: &[Value]| h.iter().map(|x| x["doc_id"].as_str().unwrap_or("?").to_string()).collect::<Vec<_>>();
+    return Err(format!("expected hits {:?}, got {:?}", ids(exp), ids(got)));
+  }
+  let mut i = 0;
+  while i < exp.len() {
+    let mut j = i + 1;
+    if score_ordered {
+      while j < exp.len() && num_eq(&exp[j]["score"], &exp[i]["score"]) {
+        j += 1;
+      }
+    }
+    let mut used = vec![false; j - i];
+    for e in &exp[i..j] {
+      let mut last = String::new();
+      let mut found = false;
+      for (k, g) in got[i..j].iter().enumerate() {
+        if used[k] {
+          continue;
+        }
+        match deep_eq(e, g, &format!("hit {}", e["doc_id"])) {
+          Ok(()) => {
+            used[k] = true;
+            found = true;
+            break;
+          }
+          Err(m) => {
+            if g["doc_id"] == e["doc_id"] || last.is_empty() {
+              last = m;
+            }
+          }
+        }
+      }
+      if !found {
+        return Err(format!("positions {i}..{j}: {last}"));
+      }
+    }
+    i = j;
+  }
+  Ok(())
+}
+
+fn score_ordered(req: &Value) -> bool {
+  req["sort"].as_array().map(|a| a.is_empty()).unwrap_or(true)
+}
+
+/// The FFI does not document whether stored fields come back: when it returns none, ignore them.
+fn ffi_fields_policy(exp: &mut [Value], got: &[Value]) {
+  if got.iter().all(|h| h["fields"].is_null()) {
+    for e in exp.iter_mut() {
+      e["fields"] = Value::Null;
+    }
+  }
+}
+
+fn compare_pages(req: &Value, exp: &[Out], got: &[Out], ffi: bool) -> Result<(), String> {
+  if exp.len() != got.len() {
+    return Err(format!("cursor walk has {} pages, the library's has {}", got.len(), exp.len()));
+  }
+  let mut all_e: Vec<Value> = Vec::new();
+  let mut all_g: Vec<Value> = Vec::new();
+  for (p, (e, g)) in exp.iter().zip(got).enumerate() {
+    let pg = if exp.len() > 1 { format!("page {} ", p + 1) } else { String::new() };
+    match (e, g) {
+      (Out::Broken(m), _) => return Err(format!("{pg}library misbehaved: {m}")),
+      (_, Out::Broken(m)) => return Err(format!("{pg}front end misbehaved: {m}")),
+      (Out::Err(_), Out::Err(_)) => {}
+      (Out::Ok(v), Out::Err(m)) => return Err(format!("{pg}front end reports an error ({m}) where the library answers {}", brief(v))),
+      (Out::Err(m), Out::Ok(v)) => return Err(format!("{pg}front end answers {} where the library reports an error ({m})", brief(v))),
+      (Out::Ok(ev), Out::Ok(gv)) => {
+        let (eo, mut eh) = normalize(ev);
+        let (go, gh) = normalize(gv);
+        if ffi {
+          ffi_fields_policy(&mut eh, &gh);
+        }
+        deep_eq(&eo, &go, &format!("{pg}response")).map_err(|m| format!("{m}; library {}, front end {}", brief(ev), brief(gv)))?;
+        if eh.len() != gh.len() {
+          return Err(format!("{pg}has {} hits, the library's has {}", gh.len(), eh.len()));
+        }
+        all_e.extend(eh);
+        all_g.extend(gh);
+      }
+    }
+  }
+  compare_hits(&all_e, &all_g, score_ordered(req))
+}
+
+fn brief(v: &Value) -> String {
+  let hits: Vec<String> = v["hits"].as_array().map(|a| a.iter().map(|h| format!("{}:{}", h["doc_id"].as_str().unwrap_or("?"), h["score"])).collect()).unwrap_or_default();
+  let mut s = format!("{{total {} hits [{}]", v["total_hits_estimate"], hits.join(" "));
+  if v.get("next_cursor").is_some() {
+    s.push_str(" +cursor");
+  }
+  if let Some(a) = v.get("aggregations") {
+    let t = a.to_string();
+    s.push_str(&format!(" aggs {}", t.chars().take(160).collect::<String>()));
+  }
+  s.push('}');
+  s
+}
+
+/// One request, or the whole cursor walk, through `f`.
+fn pages(req: &Req, f: &mut dyn FnMut(&Value, Option<&str>) -> Out) -> Vec<Out> {
+  let mut out = Vec::new();
+  let mut cursor: Option<String> = None;
+  loop {
+    let mut j = req.json.clone();
+    if let Some(c) = &cursor {
+      j["cursor"] = json!(c);
+    }
+    let o = f(&j, cursor.as_deref());
+    let next = match &o {
+      Out::Ok(v) => v["next_cursor"].as_str().map(|x| x.to_string()),
+      _ => None,
+    };
+    out.push(o);
+    match next {
+      Some(c) if req.walk && out.len() < 8 => cursor = Some(c),
+      _ => break,
+    }
+  }
+  out
+}
+
+// ---------------------------------------------------------------------------------------------
+// Classifiers for genuine defects of the code under test (see the final report of this check)
+
+fn classify(_w: &FWorld, _check: &str, _what: &str) -> Option<&'static str> {
+  None
+}
+
+// ---------------------------------------------------------------------------------------------
+// One world through everything
+
+struct Env {
+  bin: PathBuf,
+  http: Http,
+  /// false (quick tier): a flag-expressible request goes through `--request` or through the flags,
+  /// alternating with (world, request) parity, instead of through both
+  both_cli_routes: bool,
+}
+
+struct Failure {
+  check: String,
+  sig: Option<&'static str>,
+  what: String,
+  request: Value,
+}
+
+#[derive(Default)]
+struct WorldStats {
+  evals: u64,
+  nontrivial: u64,
+  outcomes: BTreeSet<String>,
+  failures: Vec<Failure>,
+  sample: Option<Value>,
+  by_frontend: BTreeMap<String, u64>,
+  cut_short: bool,
+}
+
+fn contents_of(o: &Out) -> Result<BTreeMap<String, Value>, String> {
+  match o {
+    Out::Ok(v) => {
+      let mut m = BTreeMap::new();
+      for h in v["hits"].as_array().cloned().unwrap_or_default() {
+        let id = h["doc_id"].as_str().unwrap_or("?").to_string();
+        if m.insert(id.clone(), h["fields"].clone()).is_some() {
+          return Err(format!("match_all returns id {id} twice"));
+        }
+      }
+      if v.get("next_cursor").is_some() {
+        return Err("match_all with limit 100 still has a next_cursor".into());
+      }
+      Ok(m)
+    }
+    Out::Err(m) => Err(format!("match_all failed: {m}")),
+    Out::Broken(m) => Err(format!("match_all misbehaved: {m}")),
+  }
+}
+
+fn run_world(env: &Env, w: &FWorld, reqs: &[Req], over: &(dyn Fn() -> bool + Sync)) -> WorldStats {
+  let mut st = WorldStats::default();
+  let trace = std::env::var("VERIF_C25_TRACE").is_ok();
+  let t0 = std::time::Instant::now();
+  let tr = |what: &str| {
+    if trace {
+      eprintln!("trace {:8.3}s {what}", t0.elapsed().as_secs_f64());
+    }
+  };
+  let sc = Scratch::new("c25");
+  let tmp = sc.sub("tmp");
+  std::fs::create_dir_all(&tmp).expect("tmp dir");
+  let fail = |st: &mut WorldStats, check: String, what: String, request: Value| {
+    let what = format!("[{check}] {}: {what}", w.describe());
+    st.failures.push(Failure { sig: classify(w, &check, &what), check, what, request });
+  };
+
+  // ---- build the same history everywhere
+  let mut lib = match LibFe::create(&sc.sub("lib"), &w.schema_json, false) {
+    Ok(l) => l,
+    Err(e) => vcore::ev::machinery_failure(&format!("C25 library mirror: {e}")),
+  };
+  let mut clife = CliFe { bin: env.bin.clone(), idx: sc.sub("cli"), tmp: tmp.clone(), n: 0 };
+  let http_dir = sc.sub("http");
+  let httpfe = env.http.serve(&http_dir);
+  tr("http up");
+  let with_ffi = w.ffi_expressible();
+  let mut libffi: Option<LibFe> = None;
+  let mut ffife: Option<FfiFe> = None;
+  st.evals += 1;
+  if let Err(e) = clife.init(&w.schema_json) {
+    fail(&mut st, "build:cli".into(), format!("init failed: {e}"), Value::Null);
+    return st;
+  }
+  if let Err(e) = httpfe.init(&http_dir, &w.schema_json) {
+    fail(&mut st, "build:http".into(), format!("init failed: {e}"), Value::Null);
+    return st;
+  }
+  if with_ffi {
+    let d = sc.sub("ffi");
+    if !w.default_schema {
+      // the FFI has no init: the directory is created through the library with the same options
+      if let Err(e) = Index::create(&d, schema(w.schema_json.clone()), lib_opts(&d)) {
+        vcore::ev::machinery_failure(&format!("C25 FFI directory: {e:#}"));
+      }
+    }
+    match FfiFe::open(&d, w.default_schema) {
+      Ok(f) => ffife = Some(f),
+      Err(e) => {
+        fail(&mut st, "build:ffi".into(), e, Value::Null);
+        return st;
+      }
+    }
+    libffi = Some(LibFe::create(&sc.sub("libffi"), &w.schema_json, true).unwrap_or_else(|e| vcore::ev::machinery_failure(&format!("C25 library mirror (ffi): {e}"))));
+  }
+  for (i, op) in w.history.iter().enumerate() {
+    st.evals += 1;
+    if let Err(e) = lib.apply(op) {
+      fail(&mut st, "build:library".into(), format!("op {i} {} failed in the library: {e}", op.short()), Value::Null);
+      return st;
+    }
+    if let Err(e) = clife.apply(op) {
+      fail(&mut st, "build:cli".into(), format!("op {i} {} succeeds in the library but: {e}", op.short()), Value::Null);
+      return st;
+    }
+    if let Err(e) = httpfe.apply(op) {
+      fail(&mut st, "build:http".into(), format!("op {i} {} succeeds in the library but: {e}", op.short()), Value::Null);
+      return st;
+    }
+    if let (Some(f), Some(l)) = (&ffife, &mut libffi) {
+      if let Err(e) = l.apply(op) {
+        fail(&mut st, "build:library".into(), format!("op {i} {} failed in the library (commit per add): {e}", op.short()), Value::Null);
+        return st;
+      }
+      if let Err(e) = f.apply(op) {
+        fail(&mut st, "build:ffi".into(), format!("op {i} {} succeeds in the library but: {e}", op.short()), Value::Null);
+        return st;
+      }
+    }
+  }
+  // an uncommitted tail stays uncommitted (the CLI process has exited; HTTP dropped its writer)
+  lib.writer = None;
+
+  tr("history applied");
+  // ---- contents
+  let model = w.model_contents();
+  let ma = json!({"query": {"type": "match_all"}, "limit": 100, "return_stored": true});
+  let mut views: Vec<(&str, Out)> = vec![("library", lib.search(&ma)), ("cli", clife.search_request(&ma, false)), ("http", httpfe.search(&ma))];
+  if let (Some(f), Some(l)) = (&ffife, &libffi) {
+    views.push(("library-commit-per-add", l.search(&ma)));
+    views.push(("ffi", f.search(&ma)));
+  }
+  for (name, o) in &views {
+    st.evals += 1;
+    *st.by_frontend.entry(name.to_string()).or_insert(0) += 1;
+    match contents_of(o) {
+      Ok(m) => {
+        if m != model {
+          fail(&mut st, format!("contents:{name}"), format!("match_all stored contents {} differ from the committed documents {}", json!(m), json!(model)), ma.clone());
+        }
+      }
+      Err(e) => fail(&mut st, format!("contents:{name}"), e, ma.clone()),
+    }
+  }
+  st.outcomes.insert(format!("contents-{}", model.len().min(2)));
+
+  tr("contents compared");
+  // ---- requests
+  for (ri, r) in reqs.iter().enumerate() {
+    if over() {
+      st.cut_short = true;
+      break;
+    }
+    let exp = pages(r, &mut |j, _| lib.search(j));
+    let class = match &exp[0] {
+      Out::Ok(v) => {
+        if exp.len() > 1 {
+          format!("walk-{}-pages", exp.len().min(3))
+        } else if v["hits"].as_array().map(|h| h.is_empty()).unwrap_or(true) {
+          if v.get("aggregations").is_some() { "ok-aggs-only".into() } else { "ok-empty".to_string() }
+        } else {
+          "ok-hits".to_string()
+        }
+      }
+      Out::Err(_) => "error".to_string(),
+      Out::Broken(_) => "library-broken".to_string(),
+    };
+    st.outcomes.insert(class.clone());
+    let nontrivial = matches!(&exp[0], Out::Ok(v) if v["hits"].as_array().map(|h| !h.is_empty()).unwrap_or(false) || v.get("aggregations").is_some());
+    let judge = |st: &mut WorldStats, fe: &str, got: Vec<Out>, exp: &[Out], ffi: bool, shown: Value| {
+      st.evals += 1;
+      *st.by_frontend.entry(fe.to_string()).or_insert(0) += 1;
+      if nontrivial {
+        st.nontrivial += 1;
+      }
+      if let Err(m) = compare_pages(&r.json, exp, &got, ffi) {
+        fail(st, format!("search:{}:{fe}", r.name), format!("request {shown}: {m}"), r.json.clone());
+      }
+    };
+    tr(&format!("{} library", r.name));
+    let flags_turn = (ri + w.history.len() + w.corpus.len()) % 2 == 0;
+    if env.both_cli_routes || r.flags.is_none() || !flags_turn {
+      let got = pages(r, &mut |j, _| clife.search_request(j, ri % 2 == 1));
+      judge(&mut st, "cli-request", got, &exp, false, r.json.clone());
+    }
+    tr(&format!("{} cli-request", r.name));
+    if let Some(flags) = r.flags.as_ref().filter(|_| env.both_cli_routes || flags_turn) {
+      let got = pages(r, &mut |_, c| clife.search_flags(flags, c));
+      judge(&mut st, "cli-flags", got, &exp, false, json!({"flags": flags, "equivalent_request": r.json}));
+    }
+    tr(&format!("{} cli-flags", r.name));
+    let got = pages(r, &mut |j, _| httpfe.search(j));
+    judge(&mut st, "http", got, &exp, false, r.json.clone());
+    tr(&format!("{} http", r.name));
+    if let (Some(f), Some(l)) = (&ffife, &libffi) {
+      if ffi_expressible(&r.json) {
+        let expf = pages(r, &mut |j, _| l.search(j));
+        let got = pages(r, &mut |j, _| f.search(j));
+        judge(&mut st, "ffi", got, &expf, true, r.json.clone());
+      }
+    }
+    if st.sample.is_none() && class == "ok-hits" && w.history.len() >= 4 {
+      if let Out::Ok(v) = &exp[0] {
+        st.sample = Some(json!({"world": w.describe(), "request": r.json, "flags": r.flags, "library": brief(v), "front_ends": if with_ffi { "cli-request cli-flags http ffi" } else { "cli-request cli-flags http" }}));
+      }
+    }
+  }
+  drop(ffife);
+  drop(httpfe);
+  st
+}
+
+// ---------------------------------------------------------------------------------------------
+// Invocations exactly as README.md / docs/quickstart.md spell them
+
+struct DocCase {
+  name: &'static str,
+  /// arguments after `search <index>`
+  args: Vec<String>,
+  /// the request the documentation says this invocation performs
+  request: Value,
+  where_documented: &'static str,
+}
+
+fn doc_cases() -> Vec<DocCase> {
+  let f = |v: Vec<&str>| v.into_iter().map(s).collect::<Vec<String>>();
+  vec![
+    DocCase { name: "q-flag", args: f(vec!["--q", "a", "--limit", "5"]), request: json!({"query": "a", "limit": 5, "return_stored": false}), where_documented: "README.md 'Search responses include a next_cursor': `search \"$INDEX\" --q \"rust\" --limit 5 --cursor ...`; docs/quickstart.md step 5" },
+    DocCase { name: "limit-0-aggs", args: f(vec!["-q", "a", "--limit", "0", "--aggs-file", "@AGGS_FILE@"]), request: json!({"query": "a", "limit": 0, "return_stored": false, "aggs": aggs_json()}), where_documented: "README.md: `search ... --limit 0 --aggs-file /tmp/aggs.json`; 'when --limit 0 the search skips hit ranking and only returns aggregations'" },
+    DocCase { name: "filter-flag", args: f(vec!["-q", "a", "--filter", "{\"KeywordEq\":{\"field\":\"kw\",\"value\":\"x\"}}", "--return-stored"]), request: json!({"query": "a", "limit": 10, "return_stored": true, "filter": {"KeywordEq": {"field": "kw", "value": "x"}}}), where_documented: "docs/quickstart.md step 5: `search \"$INDEX\" --q \"search\" --filter '{...}' --return-stored`; README.md 'individual CLI flags (like --q, --filter, etc.)'" },
+  ]
+}
+
+fn doc_world() -> FWorld {
+  let docs = corpora(false).into_iter().find(|c| c.0 == "two").unwrap().2;
+  FWorld { corpus: "two".into(), shape: "add-commit".into(), default_schema: false, schema_json: schema_kw(), history: vec![Op::Add(docs), Op::Commit] }
+}
+
+/// Returns (name, signature, what) for every documented invocation that disagrees with the library.
+fn run_doc_family(env: &Env, only: Option<&str>) -> (u64, Vec<(String, Option<&'static str>, String)>) {
+  let w = doc_world();
+  let sc = Scratch::new("c25doc");
+  let tmp = sc.sub("tmp");
+  std::fs::create_dir_all(&tmp).expect("tmp dir");
+  let mut lib = LibFe::create(&sc.sub("lib"), &w.schema_json, false).unwrap_or_else(|e| vcore::ev::machinery_failure(&format!("C25 doc family: {e}")));
+  let mut clife = CliFe { bin: env.bin.clone(), idx: sc.sub("cli"), tmp, n: 0 };
+  if let Err(e) = clife.init(&w.schema_json) {
+    vcore::ev::machinery_failure(&format!("C25 doc family: {e}"));
+  }
+  for op in &w.history {
+    if let Err(e) = lib.apply(op).and_then(|_| clife.apply(op)) {
+      vcore::ev::machinery_failure(&format!("C25 doc family: {e}"));
+    }
+  }
+  let mut out = Vec::new();
+  let mut evals = 0;
+  for c in doc_cases() {
+    if only.map(|o| o != c.name).unwrap_or(false) {
+      continue;
+    }
+    evals += 1;
+    let exp = lib.search(&c.request);
+    let got = clife.search_flags(&c.args, None);
+    if let Err(m) = compare_pages(&c.request, &[exp], &[got.clone()], false) {
+      let err = match &got {
+        Out::Err(e) => e.clone(),
+        _ => String::new(),
+      };
+      let sig = match c.name {
+        "q-flag" if err.contains("unexpected argument '--q'") => Some("C25-cli-documented-q-flag-rejected"),
+        "limit-0-aggs" if err.contains("search limit must be greater than zero") => Some("C25-cli-limit-0-rejected"),
+        "filter-flag" if err.contains("unexpected argument '--filter'") => Some("C25-cli-documented-filter-flag-missing"),
+        _ => None,
+      };
+      out.push((c.name.to_string(), sig, format!("[doc:{}] {}: documented invocation `searchlite-cli search <index> {}` (equivalent request {}; {}): {m}", c.name, w.describe(), c.args.join(" "), c.request, c.where_documented)));
+    }
+  }
+  (evals, out)
+}
+
+// ---------------------------------------------------------------------------------------------
+
+fn replay_verdict(path: &str, a: Option<String>, b: Option<String>) -> i32 {
+  if a.is_some() != b.is_some() {
+    vcore::ev::machinery_failure("NONDETERMINISM on replay");
+  }
+  match a {
+    Some(w) => {
+      println!("VIOLATION property=C25 replay={path}\n  what: {w}");
+      1
+    }
+    None => {
+      println!("replay: no violation");
+      0
+    }
+  }
+}
+
+pub fn run(ctx: &Ctx) -> i32 {
+  let quick = ctx.tier.is_quick();
+  // anyhow captures a backtrace per error when RUST_BACKTRACE is set; errors are data here
+  std::env::set_var("RUST_BACKTRACE", "0");
+  let (bin, build_s) = build_cli();
+  let mut rep = Reporter::new("C25", ctx.tier, "exploration");
+  // exec from tmpfs: mapping the 100+ MB debug binary from the overlay file system doubles the
+  // cost of every spawn
+  let fast = vcore::world::scratch_root().join("searchlite-cli.copy");
+  let _ = std::fs::create_dir_all(vcore::world::scratch_root());
+  let bin = match std::fs::copy(&bin, &fast) {
+    Ok(_) => fast,
+    Err(_) => bin,
+  };
+  let env = Env { bin, http: Http::new(), both_cli_routes: !quick || ctx.replay.is_some() };
+  if let Some(path) = &ctx.replay {
+    rep.set_replaying(true);
+    let v: Value = serde_json::from_slice(&std::fs::read(path).expect("replay file")).expect("json");
+    let cs = &v["case"];
+    if let Some(name) = cs["doc_family"].as_str() {
+      let run = || run_doc_family(&env, Some(name)).1.first().map(|f| f.2.clone());
+      let (a, b) = (run(), run());
+      return replay_verdict(path, a, b);
+    }
+    let w = FWorld::from_json(&cs["world"]);
+    let check = cs["check"].as_str().unwrap_or("").to_string();
+    let reqs: Vec<Req> = requests(true).into_iter().filter(|r| check.split(':').nth(1).map(|n| n == r.name).unwrap_or(false)).collect();
+    let run = || run_world(&env, &w, &reqs, &|| false).failures.into_iter().find(|f| f.check == check).map(|f| f.what);
+    let (a, b) = (run(), run());
+    return replay_verdict(path, a, b);
+  }
+
+  let ws = worlds(!quick);
+  let reqs = requests(!quick);
+  let deadline = std::env::var("VERIF_C25_BUDGET_S").ok().and_then(|x| x.parse::<f64>().ok()).unwrap_or(if quick { 30.0 } else { 540.0 });
+  let timed_out = AtomicBool::new(false);
+  let done = AtomicU64::new(0);
+  let nontrivial = AtomicU64::new(0);
+  let outcomes: Mutex<BTreeSet<String>> = Mutex::new(BTreeSet::new());
+  let by_fe: Mutex<BTreeMap<String, u64>> = Mutex::new(BTreeMap::new());
+  let ffi_worlds = AtomicU64::new(0);
+  ws.par_iter().for_each(|w| {
+    if rep.elapsed_s() > deadline {
+      timed_out.store(true, Ordering::Relaxed);
+      return;
+    }
+    let st = run_world(&env, w, &reqs, &|| rep.elapsed_s() > deadline);
+    if st.cut_short {
+      timed_out.store(true, Ordering::Relaxed);
+    } else {
+      done.fetch_add(1, Ordering::Relaxed);
+    }
+    if w.ffi_expressible() {
+      ffi_worlds.fetch_add(1, Ordering::Relaxed);
+    }
+    rep.add_evals(st.evals);
+    nontrivial.fetch_add(st.nontrivial, Ordering::Relaxed);
+    outcomes.lock().extend(st.outcomes);
+    {
+      let mut m = by_fe.lock();
+      for (k, v) in st.by_frontend {
+        *m.entry(k).or_insert(0) += v;
+      }
+    }
+    if let Some(s) = st.sample {
+      rep.sample(s);
+    }
+    for f in st.failures {
+      rep.fail(f.sig, &f.what, json!({"engine": "frontmc", "world": w.to_json(), "check": f.check, "request": f.request}));
+    }
+  });
+  // documented spellings, once
+  let (doc_evals, doc_fail) = run_doc_family(&env, None);
+  rep.add_evals(doc_evals);
+  for (name, sig, what) in doc_fail {
+    rep.fail(sig, &what, json!({"engine": "frontmc", "doc_family": name}));
+  }
+  let to = timed_out.load(Ordering::Relaxed);
+  let n_out = outcomes.lock().len();
+  if n_out < 2 {
+    vcore::ev::machinery_failure("C25 vacuous: fewer than 2 distinct outcomes");
+  }
+  let cov = vcore::cov! {
+    "distinct_nontrivial" => nontrivial.load(Ordering::Relaxed),
+    "rule" => "world = corpus (<= 3 documents) x history shape over add/update/delete/commit/compact, built through the CLI binary (one process per command), the in-process HTTP service (/init /add /bulk /delete /commit /compact over raw HTTP/1.1), the C FFI (histories of add+commit only) and the library (filesystem index, positions on, k1 0.9, b 0.4; for the FFI a second mirror that commits after every add). case = (world, request, front end route) with routes cli --request / --request-stdin, cli documented flags (when the request is flag-expressible; quick tier: such a request takes one of the two CLI routes, alternating with (world, request) parity, thorough tier: both), http /search, ffi searchlite_search (when expressible: query, limit, cursor, aggs). Non-trivial = the library's answer has at least one hit or aggregations. Oracle: match_all stored contents of every front end == reference model of committed documents == library; every response deep-equals the library's (numbers rel. tol. 1e-5, score tie classes, cursor strings opaque = presence only, profile.timings dropped, cursor walks compared page by page and concatenated); error <=> error; HTTP errors carry the documented error body.",
+    "worlds" => ws.len(),
+    "worlds_done" => done.load(Ordering::Relaxed),
+    "worlds_with_ffi" => ffi_worlds.load(Ordering::Relaxed),
+    "requests" => reqs.len(),
+    "request_names" => reqs.iter().map(|r| r.name.clone()).collect::<Vec<_>>(),
+    "comparisons_by_front_end" => by_fe.lock().clone(),
+    "documented_invocations" => doc_evals,
+    "observed_outcomes" => outcomes.lock().clone(),
+    "distinct_observed_outcomes" => n_out,
+    "cli_build_s" => build_s,
+    "cap_hit" => if to { Some(format!("wall budget {deadline}s")) } else { None },
+    "exhaustive" => !to,
+  };
+  rep.finish(cov, vec![
+    "limit 0 is left out of the request alphabet: README documents `--limit 0` for the CLI but search-request.schema.json demands limit >= 1 and the library itself rejects it; the documented-invocations family only checks that the CLI and the library agree on it (both refuse)".into(),
+    "only documented CLI flags are used (-q/--query, --limit, --execution, --bmw-block-size, --sort, --cursor, --aggs, --aggs-file, --return-stored, --request, --request-stdin); --fields, --highlight, --return-hits are undocumented and left out".into(),
+    "the FFI has no init/delete/compact: it takes part in histories of add/update/commit whose every add is committed; for a non-default schema its directory is created through the library with the FFI's options; searchlite_add_json commits by itself, so the FFI is compared with a library mirror that commits after every add".into(),
+    "the FFI does not document whether stored fields are returned: when it returns none they are not compared".into(),
+    "cursor strings are opaque: only their presence is compared; each front end walks with its own cursors".into(),
+    "error messages are not compared, only error vs. answer".into(),
+    "document ids have no surrounding whitespace or control characters (the CLI ids file is line based)".into(),
+  ])
 }
